@@ -971,10 +971,12 @@ namespace
         }
         else
         {
-            auto res = std::find_if(veh->soldiers().begin(), veh->soldiers().end(), [unit](std::shared_ptr<d_object> data) -> bool {
+            // soldiers() hands out a copy: begin and end have to come from the same one
+            auto soldiers = veh->soldiers();
+            auto res = std::find_if(soldiers.begin(), soldiers.end(), [unit](std::shared_ptr<d_object> data) -> bool {
                 return data->value().get() == unit.get();
             });
-            return res != veh->soldiers().end();
+            return res != soldiers.end();
         }
     }
     value vehiclevarname_object(runtime& runtime, value::cref right)
